@@ -302,8 +302,11 @@ def check_rebuild_cursor(ctx, rule):
             sentinel = val is not None and ((val[0] == "gconst" and str(val[1]).endswith("u32::MAX")) or (val[0] == "const" and val[1] == 0xFFFFFFFF))
             stores.append({"b": d[0], "idx": c["args"][1], "sentinel": sentinel})
     live = [s for s in stores if not s["sentinel"]]; pad = [s for s in stores if s["sentinel"]]
+    def und(why_):
+        ctx.undecided(rule, f"{key}|first-entry-lands-on-index-0", site, why_)
+        ctx.undecided(rule, f"{key}|padding-starts-after-the-last-entry", site, why_)
     if not live or not pad:
-        ctx.undecided(rule, f"{key}|cursor-discipline", site, f"{len(live)} entry store(s), {len(pad)} sentinel store(s) recognised: the rebuild is not the cursor-and-padding loop"); return
+        und(f"{len(live)} entry store(s), {len(pad)} sentinel store(s) recognised: the rebuild is not the cursor-and-padding loop"); return
     ds = set(); cursors = set(); why = None
     for s in live:
         r = _root_with_offset(body, s["idx"])
@@ -323,7 +326,7 @@ def check_rebuild_cursor(ctx, rule):
         if len(before) + len(after) != 1: why = f"an entry store is paired with {len(before) + len(after)} cursor bumps in its loop iteration (exactly one expected)"; break
         ds.add((1 if before else 0) + off)
     if why or len(cursors) != 1 or len(ds) != 1:
-        ctx.undecided(rule, f"{key}|cursor-discipline", site, why or "entry stores do not share one cursor / one store-to-bump order"); return
+        und(why or "entry stores do not share one cursor / one store-to-bump order"); return
     L = cursors.pop(); d = ds.pop()
     inits = [rv_[1][1].get("int") for (b_, i_, rv_) in body.defs.get(L, []) if b_ in body.reachable and rv_[0] == "Use" and rv_[1][0] == "k"]
     ok0 = len(inits) == 1 and inits[0] is not None and inits[0] + d == 0
